@@ -80,10 +80,10 @@ class DeviceInfo:
         """Check if device supports a specific capability for a given domain.
 
         :param Domain domain: target domain
-        :param Capability capability: capability to check
+        :param Capability capability: capability to check (flag mask)
         """
         if domain in self.__domains:
-            return self.__domains[domain] & (1 << capability) > 0
+            return self.__domains[domain] & capability > 0
         return False
 
 
